@@ -242,7 +242,8 @@ F(S, c) ==
          ELSE IF c = 92 THEN SetM(S, M("RXE"))
          ELSE S
     [] m = "RXE" -> SetM(S, M("RXB"))
-    [] m = "DS" -> F(SetM(BeginEv(S, "T", p), M("DB")), c)
+    [] m = "DS" -> IF isNL THEN S      \* the text does not begin with a line break (the LF of a CRLF keyword line)
+                   ELSE F(SetM(BeginEv(S, "T", p), M("DB")), c)
     [] m = "DB" ->
          IF isNL \/ isWS THEN S
          ELSE IF isEOF THEN EndEv(S, "T", p - 1)
